@@ -1109,7 +1109,7 @@ func (e *envT) scenarios() []*scenario {
 	}
 
 	// main: the quick alphabet of 35 operations on one remote, from the synced and the unpushed world
-	main := &scenario{Name: "main", Depth: 3, FaultDepth: 2, Faults: faults, Weight: 6}
+	main := &scenario{Name: "main", Depth: 3, FaultDepth: 2, Faults: faults, Weight: 5}
 	main.Ops = append(localOps(true, false), remoteOps(0, true, false)...)
 	if e.thorough {
 		main.Depth, main.FaultDepth = 4, 2
@@ -1117,14 +1117,13 @@ func (e *envT) scenarios() []*scenario {
 	e.mkInits(main, baseHTTP, [][2]string{initSynced, initUnpushed})
 
 	// graphs: starts from branching histories so that merges / multi-ref pushes are within the depth bound
-	graphs := &scenario{Name: "graphs", Depth: 3, FaultDepth: 1, Faults: faults, Weight: 3}
+	graphs := &scenario{Name: "graphs", Depth: 3, FaultDepth: 1, Faults: faults, Weight: 4}
 	graphs.Ops = append(localOps(true, e.thorough), remoteOps(0, true, e.thorough)...)
 	gi := [][2]string{initDiverged, initTwoBranches}
 	if e.thorough {
 		gi = append(gi, initThree)
 	}
 	e.mkInits(graphs, baseHTTP, gi)
-	ps = append(ps, graphs)
 
 	if e.thorough {
 		// wide: the full thorough alphabet (octopus, batch sizes 1/2, fetch --prune, another client pushing, ...) to depth 3
@@ -1165,7 +1164,7 @@ func (e *envT) scenarios() []*scenario {
 		e.eachWorker(func(w *worker) { w.setTransport(false) })
 		ps = append(ps, file)
 	}
-	ps = append(ps, main) // the largest scenario runs late: a deadline cuts it, not the others
+	ps = append(ps, main, graphs) // the two largest scenarios run late: a deadline cuts them, not the others
 	if e.thorough {
 		// deep: a depth-5 slice over a 13-operation alphabet (every sequence of 5 ending in a push)
 		deep := &scenario{Name: "deep", Depth: 5, FaultDepth: 0, Faults: faults}
@@ -1271,7 +1270,11 @@ func TestVerifC03(t *testing.T) {
 		if left < 0 {
 			left = 0
 		}
-		deadline = time.Now().Add(left * time.Duration(p.Weight) / time.Duration(wsum))
+		share := left * time.Duration(p.Weight) / time.Duration(wsum)
+		if share = share * 3 / 2; share > left { // a little more than the fair share: later scenarios usually finish early
+			share = left
+		}
+		deadline = time.Now().Add(share)
 		wsum -= p.Weight
 		if p.FileMode {
 			e.eachWorker(func(w *worker) { w.setTransport(true) })
